@@ -119,6 +119,28 @@ def rule_arity(t, rep, rid):
             rep.ok(rid, v, where, sample={"builtin": v, "arity": ar, "call_reads": used, "cost_args": ncost, "aiken_arity": sig["arity"], "force_count": t.force[v][0], "aiken_generics": sig["generics"]})
 
 
+def _checks_element_type(t, v, i):
+    """the arm binds the type component of `args[i].unwrap_list()?` to a name and uses that name (a comparison, a match)"""
+    sh = t.sh
+    body = t.call[v]["body"]
+    for n in walk(body):
+        if n.get("k") != "Let" or n.get("init") is None or not isinstance(n.get("pat"), dict):
+            continue
+        if not re.match(r"^args\[%d\]\.unwrap_list\(\)\?$" % i, sh.nsrc(RT, n["init"])):
+            continue
+        pat = n["pat"]
+        if pat.get("k") != "PTuple" or not pat.get("elems"):
+            return False
+        first = pat["elems"][0]
+        name = first.get("name") if first.get("k") == "Ident" else None
+        if not name or name.startswith("_"):
+            return False
+        bare = name[2:] if name.startswith("r#") else name
+        uses = [x for x in walk(body) if x.get("k") == "Path" and x.get("p") in (name, bare, "r#" + bare)]
+        return len(uses) >= 1
+    return False
+
+
 def rule_sig(t, rep, rid, oracle_wrong=None):
     """position by position, the evaluator's unwrapper matches the Aiken parameter type.
     oracle_wrong: {"Builtin#argindex": reason} rows where the *Aiken signature* is the side at fault; the property using
@@ -158,6 +180,8 @@ def rule_sig(t, rep, rid, oracle_wrong=None):
             rows.append({"arg": i, "aiken": sc, "evaluator": uc})
             if sc.startswith("?") or uc.startswith("?"):
                 bad.append("argument %d: unrecognised type/unwrapper (%s / %s)" % (i, sc, uc))
+            elif uc == "list<?>" and re.match(r"^list<(int|bytes|string|bool|data|g1|g2|ml|unit)>$", sc) and not _checks_element_type(t, v, i):
+                bad.append("argument %d: Aiken types it %s, the evaluator takes it apart with unwrap_list and discards the element type: an (empty) list of another element type is accepted where the builtin must fail with a type error" % (i, sc))
             elif not compatible(sc, uc):
                 if "%s#%d" % (v, i) in oracle_wrong:
                     rows[-1]["reviewed"] = oracle_wrong["%s#%d" % (v, i)]
